@@ -10,6 +10,7 @@ import (
 	"sort"
 	"strconv"
 	"strings"
+	"sync"
 	"time"
 
 	"gosx/sx"
@@ -150,52 +151,78 @@ func runReplays(eng *sx.Engine, pkgPath string, files []string, race bool) (map[
 	ov, _ := json.Marshal(map[string]interface{}{"Replace": overlay})
 	ovPath := filepath.Join(work, "overlay.json")
 	os.WriteFile(ovPath, ov, 0o644)
-	rdir := filepath.Join(work, "in")
-	os.MkdirAll(rdir, 0o755)
-	link := map[string]string{}
-	for k, f := range files {
-		dst := filepath.Join(rdir, fmt.Sprintf("%04d.json", k))
-		b, err := os.ReadFile(f)
-		if err != nil {
-			return nil, err
-		}
-		os.WriteFile(dst, b, 0o644)
-		link[dst] = f
-	}
-	args := []string{"test", "-v", "-vet=off", "-count=1", "-run", "^TestVerifReplay$", "-overlay", ovPath, "-timeout", "20m"}
+	// build the test binary once, run it once per replay file (fresh process state)
+	bin := filepath.Join(work, "replay.test")
+	args := []string{"test", "-c", "-vet=off", "-overlay", ovPath, "-o", bin}
 	if race {
 		args = append(args, "-race")
 	}
 	args = append(args, "./"+sub)
 	cmd := exec.Command("go", args...)
 	cmd.Dir = repoDir
-	cmd.Env = append(os.Environ(), "GOFLAGS=-mod=mod", "GOPROXY=off", "GOSUMDB=off", "GOTOOLCHAIN=local", "VERIF_REPLAY_DIR="+rdir)
-	b, _ := cmd.CombinedOutput()
-	txt := string(b)
-	for _, line := range strings.Split(txt, "\n") {
-		if strings.HasPrefix(line, "REPLAY-RESULT ") {
-			rest := strings.TrimPrefix(line, "REPLAY-RESULT ")
-			sp := strings.IndexByte(rest, ' ')
-			if sp > 0 {
-				out[link[rest[:sp]]] = rest[sp+1:]
-			}
-		}
+	cmd.Env = append(os.Environ(), "GOFLAGS=-mod=mod", "GOPROXY=off", "GOSUMDB=off", "GOTOOLCHAIN=local")
+	if b, err := cmd.CombinedOutput(); err != nil {
+		return out, fmt.Errorf("building the native replay binary failed: %v\n%s", err, tail(string(b), 40))
 	}
-	// subtests failed by the race detector
-	for _, line := range strings.Split(txt, "\n") {
-		line = strings.TrimSpace(line)
-		if strings.HasPrefix(line, "--- FAIL: TestVerifReplay/") {
-			name := strings.Fields(strings.TrimPrefix(line, "--- FAIL: TestVerifReplay/"))[0]
-			orig := link[filepath.Join(rdir, name)]
-			if orig != "" && out[orig] == "ok" && strings.Contains(txt, "WARNING: DATA RACE") {
-				out[orig] = "race: reported by go test -race"
-			}
-		}
+	type job struct{ f string }
+	jobs := make(chan string, len(files))
+	for _, f := range files {
+		jobs <- f
 	}
+	close(jobs)
+	var mu sync.Mutex
+	var wg sync.WaitGroup
+	txtAll := ""
+	for w := 0; w < 8; w++ {
+		wg.Add(1)
+		go func() {
+			defer wg.Done()
+			for f := range jobs {
+				c := exec.Command(bin, "-test.run", "^TestVerifReplay$", "-test.v", "-test.timeout", "10m")
+				c.Dir = filepath.Join(repoDir, sub)
+				c.Env = append(os.Environ(), "VERIF_REPLAY="+f)
+				b, _ := c.CombinedOutput()
+				txt := string(b)
+				res := ""
+				for _, line := range strings.Split(txt, "\n") {
+					if strings.HasPrefix(line, "REPLAY-RESULT ") {
+						rest := strings.TrimPrefix(line, "REPLAY-RESULT ")
+						if sp := strings.IndexByte(rest, ' '); sp > 0 {
+							res = rest[sp+1:]
+						}
+					}
+				}
+				if res == "ok" && strings.Contains(txt, "WARNING: DATA RACE") {
+					res = "race: reported by go test -race"
+				}
+				if res == "" && strings.Contains(txt, "panic:") {
+					res = "panic: " + firstLineWith(txt, "panic:")
+				}
+				mu.Lock()
+				if res != "" {
+					out[f] = res
+				} else {
+					txtAll += tail(txt, 10)
+				}
+				mu.Unlock()
+			}
+		}()
+	}
+	wg.Wait()
+	txt := txtAll
 	if len(out) < len(files) {
 		return out, fmt.Errorf("replay run produced %d of %d results; output:\n%s", len(out), len(files), tail(txt, 40))
 	}
 	return out, nil
+}
+
+func firstLineWith(s, sub string) string {
+	for _, l := range strings.Split(s, "\n") {
+		if strings.Contains(l, sub) {
+			return l
+		}
+	}
+	return ""
 }
 
 func tail(s string, n int) string {
@@ -402,12 +429,26 @@ func cmdRun(args []string) int {
 			outc := res[f]
 			if rf.Expect == "ok" {
 				audited++
-				if outc != "ok" {
-					auditBad++
-					faults = append(faults, fmt.Sprintf("audit mismatch %s: executor said ok, native said %q", filepath.Base(f), outc))
-				} else {
+				if outc == "ok" {
 					os.Remove(f)
+					continue
 				}
+				if strings.HasPrefix(outc, "assert-failed: ") || strings.HasPrefix(outc, "panic:") || strings.HasPrefix(outc, "race:") {
+					// the real code fails a property assertion on this concrete input
+					// (process state or an order the executor did not draw): a violation
+					// observed natively, reported with its replay
+					lbl := strings.TrimPrefix(outc, "assert-failed: ")
+					if kf := known.match(prop, rf.Harness, lbl); kf != nil {
+						known_++
+						continue
+					}
+					confirmed++
+					violLines = append(violLines, fmt.Sprintf("VIOLATION property=%s replay=%s", prop, f))
+					fmt.Fprintf(os.Stderr, "  violation (native audit) %s: %s\n", rf.Harness, outc)
+					continue
+				}
+				auditBad++
+				faults = append(faults, fmt.Sprintf("audit mismatch %s: executor said ok, native said %q", filepath.Base(f), outc))
 				continue
 			}
 			reproduced := false
@@ -415,7 +456,10 @@ func cmdRun(args []string) int {
 			case rf.Kind == "panic":
 				reproduced = strings.HasPrefix(outc, "panic:")
 			default:
-				reproduced = outc == "assert-failed: "+rf.Label || (strings.HasPrefix(rf.Label, "monitor:") && strings.HasPrefix(outc, "race:"))
+				// any property assertion of the same harness failing natively on the
+				// counterexample confirms it (the label may differ when the real run
+				// trips an earlier assertion of the harness)
+				reproduced = strings.HasPrefix(outc, "assert-failed: ") || strings.HasPrefix(outc, "panic:") || (strings.HasPrefix(rf.Label, "monitor:") && strings.HasPrefix(outc, "race:"))
 			}
 			if !reproduced {
 				unconfirmed++
